@@ -520,11 +520,13 @@ fn set_speed_case(ctx: &mut Ctx, r: &mut Rng, steps: usize) {
     let Some(res) = make_res(r, &tpc, &st0) else { ctx.count("train.ss.res_err"); return; };
     let con = gen_train_consist(r);
     // speed trace: irregular stamps, stop-and-go, saturating both clips now and then
-    let mut time = vec![0.0];
-    let mut speed = vec![0.0];
-    let mut v: f64 = 0.0;
-    let mut dist = 0.0;
     let vmax = bu.tp.speed_max.value;
+    // rolling start now and then: the trace's first sample differs from the (default, standing) initial train state
+    let v0: f64 = if r.chance(0.3) { ctx.count("train.ss.rolling_start"); (vmax * 0.5 * r.unit() * 8.0).round() / 8.0 } else { 0.0 };
+    let mut time = vec![0.0];
+    let mut speed = vec![v0];
+    let mut v: f64 = v0;
+    let mut dist = 0.0;
     for _ in 0..steps {
         let dt = *r.pick(&[0.5, 1.0, 1.0, 1.0, 2.0, 2.5]);
         let a = match r.below(8) { 0 => -0.6, 1 => -0.2, 2 | 3 => 0.0, 4 => 0.05, 5 => 0.15, 6 => 0.4, _ => 1.5 };
